@@ -24,6 +24,12 @@ def fval(x):
         if max(abs(x.lo), abs(x.hi)) >= (1 << 53):
             # still exact semantics: z3 rounds signed bv to fp with RNE like CPython does (correctly rounded)
             pass
+        m = max(abs(x.lo), abs(x.hi))
+        bits = m.bit_length() + 1                      # signed width that holds every value within the tracked bounds
+        if bits < core.W - 8:
+            # the bounds are a sound enclosure (interval guard): converting the low bits only gives the same value and a far
+            # smaller bit-blasted converter
+            return z3.fpSignedToFP(RNE, z3.Extract(bits - 1, 0, x.z), F64)
         return z3.fpSignedToFP(RNE, x.z, F64)
     if isinstance(x, SymBool):
         return z3.fpSignedToFP(RNE, zint(x), F64)
